@@ -309,9 +309,11 @@ func init() {
 		_, aparts := e.AppendParts(active)
 		o.Require(len(aparts) >= 1, "active-parts", "the active id list is not built by appending", nil)
 		var gsArg ssa.Value
+		var gsCall *ssa.Call
 		for _, in := range AllInstrs(fn) {
 			if c, ok := in.(*ssa.Call); ok && calleeName(&c.Call) == "am/silence.getState" {
 				gsArg = c.Call.Args[0]
+				gsCall = c
 				o.Check(e.X(fn, c.Call.Args[1]) == "(*am/silence.Silences).nowUTC(recv.silences)", "state-now", "the state of a silence must be evaluated at the silences' current time", c)
 			}
 		}
@@ -364,16 +366,37 @@ func init() {
 		}
 		if o.Check(allAcc != nil, "cache-ids", "Mutes never caches the ids of matching silences", nil) {
 			_, parts := e.AppendParts(allAcc)
-			nAct, nPend := 0, 0
+			var appends []ssa.Instruction
 			for _, p := range parts {
 				o.Check(e.X(fn, p.V) == e.X(fn, gsArg)+".Id", "cache-id", "a cached id is not the id of the evaluated silence", p.Call)
-				if e.OnlyUnder(p.Call, isState("active")) {
-					nAct++
-				} else if e.OnlyUnder(p.Call, isState("pending")) {
-					nPend++
-				} else {
-					o.Guarded(p.Call, "cache-id-guard", "caching a silence id", isState("active"), isState("pending"))
+				o.Guarded(p.Call, "cache-id-guard", "caching a silence id", isState("active"), isState("pending"))
+				appends = append(appends, p.Call)
+			}
+			// under each live state, every way on from the state evaluation caches the id
+			missing := func(state string) bool {
+				l := e.LoopOf(gsCall)
+				if l == nil || len(appends) == 0 {
+					return true
 				}
+				r := (&Walk{Fn: fn, Cut: e.CutContradicting(isState(state)), Barrier: IsInstr(appends...)}).After(gsCall)
+				for _, be := range l.Back {
+					if r.Edge[be] {
+						return true
+					}
+				}
+				for _, ex := range l.Exits {
+					if r.Edge[[2]int{ex[0], fn.Blocks[ex[0]].Succs[ex[1]].Index}] {
+						return true
+					}
+				}
+				return len(r.Returns()) > 0
+			}
+			nAct, nPend := 1, 1
+			if missing("active") {
+				nAct = 0
+			}
+			if missing("pending") {
+				nPend = 0
 			}
 			o.Check(nAct >= 1, "cache-active-missing", "ids of active silences are not cached (their expiry would go unnoticed)", nil)
 			o.Check(nPend >= 1, "cache-pending-missing", "ids of pending silences are not cached (they would never become effective: they are older than the cached version)", nil)
